@@ -328,4 +328,16 @@ BINDINGS = [
          imports=["Simfile.Model.Objects"], fallthrough="(Except.ok (⟨props⟩ : SSCChart))", **PARSE,
          raises={"ValueError": "Err.valueError", "StopIteration": "Err.stopIteration"},
          mutations={"self[]=": ("props", "(Dict.set props {key} {value})")}),
+
+    # ---- convert._copy_properties: the table of invalid properties for the target type is a parameter of the model
+    dict(file="simfile/convert.py", qual="_copy_properties", module="ConvertCopy", lean="copyProperties", ret_mode="except",
+         state_params=[("smChartTarget", "Bool"), ("invalid", "List (Nat × List Str)")],
+         params=[("source", "Dict"), ("output", "Dict"), ("invalid_property_behaviors", "List (Nat × Nat)")], ignore_params=["output_type"],
+         ret="Except CErr Dict", model="copyProperties", theorem="copyProperties_eq", properties=["C16", "C17"],
+         imports=["Simfile.Model.Convert", "Simfile.Gen.Code.Convert"], fallthrough="(Except.ok output)",
+         calls={"INVALID_PROPERTIES.get": "invalid{_0}{_1}"}, methods={"items": "{self}"},
+         optional_locals=("value",),
+         raising_conditions={"_should_copy_property": "(Simfile.GenCode.shouldCopy {0} {1} {2} {3})"},
+         # storing into an SM chart refuses keys outside its six fields (KeyError): `setItem` of the model
+         mutations={"output[]=": ("output", "(setItem smChartTarget output {key} {value})", True)}),
 ]
